@@ -14,12 +14,13 @@ provenance.
 Streams: main, conflict (mocks of one file disagreeing on pkgname/template -> error), schema
 (planted rejecting / missing schema files), force (pre-existing outputs), leak (recursive
 package + configured sub-package + sibling), builtin (matryer: with-resets, mock-build-tags)."""
-import copy, json, os, re, shutil
+import copy, json, os, re, shutil, time
 import yaml
 from common import *
 
 MOD = "example.com/m"
 HARNESS = "Cfg.Json Cfg.Config Harness.C08"
+ZIMPORT = "From Coq Require Import ZArith."
 NPROBE = 16
 NSCHEMA = 8
 NRT = 12
@@ -408,6 +409,7 @@ def finish_case(case, base, rng):
             case["schemas"][u] = ["rej_%s" % m.group(1)] if m else None
     for i in range(NPROBE):
         case["schemas"][probe_url(base, i) + ".schema.json"] = []
+    case["schemas"]["matryer.schema.json"] = []     # embedded schema of the built-in template (the stream writes only its keys)
     return case
 
 
@@ -561,10 +563,12 @@ def parse_matryer(text):
     m = re.search(r"^//go:build (\S+)", text, re.M)
     if m:
         f["td"]["mock-build-tags"] = m.group(1)
-    for m in re.finditer(r"^// (\S+) is a mock implementation of (?:\w+\.)?(\w+)\.", text, re.M):
+    heads = list(re.finditer(r"^// (\S+) is a mock implementation of (?:\w+\.)?(\w+)\.", text, re.M))
+    for n, m in enumerate(heads):
+        section = text[m.start():heads[n + 1].start() if n + 1 < len(heads) else len(text)]
         s = m.group(1)
         td = {}
-        if re.search(r"^func \(mock \*%s\) ResetCalls\(\)" % re.escape(s), text, re.M):
+        if re.search(r"^func \(mock \*%s\) ResetCalls\(\)" % re.escape(s), section, re.M):
             td["with-resets"] = True
         f["ifaces"].append({"name": m.group(2), "struct": s, "td": td, "sigs": []})
     return f
@@ -773,10 +777,10 @@ def restrict(td, keys):
 
 
 def oracle(case, obs):
-    """The property, evaluated on the observed behaviour.  Returns a list of failures."""
+    """The property, evaluated on the observed behaviour.  Returns a list of (class, message)."""
     errs = []
     if obs["panic"]:
-        return ["mockery crashed: %s" % obs["stderr_tail"][-200:]]
+        return [("crash", "mockery crashed: %s" % obs["stderr_tail"][-200:])]
     exp = expected(case)
     builtin = case["stream"] == "builtin"
     # ---- top-level sources, from showconfig's root
@@ -788,76 +792,77 @@ def oracle(case, obs):
                 continue
             want = case["flags"].get(key, first_set([case["file"], case["env"]], key))
             if root.get(key) != want:
-                errs.append("top level %s = %r, expected %r (flags > file > env > default)" % (key, root.get(key), want))
+                errs.append(("sources", "top level %s = %r, expected %r (flags > file > env > default)" % (key, root.get(key), want)))
         want_td = chain_td([case["file"], case["env"]])
         if (root.get("template-data") or {}) != want_td:
-            errs.append("top level template-data %r, expected %r" % (root.get("template-data"), want_td))
+            errs.append(("sources", "top level template-data %r, expected %r" % (root.get("template-data"), want_td)))
     elif exp["kind"] == "ok":
-        errs.append(obs.get("show_err", "showconfig failed"))
+        errs.append(("showconfig", obs.get("show_err", "showconfig failed")))
     # ---- outcome of the run
     outcomes = {p: file_outcome(case, ms) for p, ms in exp["files"].items()} if exp["kind"] == "ok" else {}
     if exp["kind"] == "err" or any(o is False for o in outcomes.values()):
         if obs["rc"] == 0:
-            errs.append("run succeeded but %s" % (exp["why"] or "a file must be refused: %s" % sorted(p for p, o in outcomes.items() if o is False)))
+            errs.append(("exit:must-refuse", "run succeeded but %s" % (exp["why"] or "a file must be refused (existing without force-file-write, or schema): %s"
+                                                                          % sorted(p for p, o in outcomes.items() if o is False))))
         return errs
-    if any(o is None for o in outcomes.values()):
-        undecided = True
-    else:
-        undecided = False
-        if obs["rc"] != 0:
-            errs.append("run failed (rc=%d) on a valid configuration: %s" % (obs["rc"], obs["stderr_tail"][-300:]))
-            return errs
+    if not any(o is None for o in outcomes.values()) and obs["rc"] != 0:
+        errs.append(("exit:valid-refused", "run failed (rc=%d) on a valid configuration: %s" % (obs["rc"], obs["stderr_tail"][-300:])))
+        return errs
     if obs["rc"] != 0:
         return errs
     files = obs["files"]
     got_paths = sorted(p for p, f in files.items() if not f.get("old"))
     if got_paths != sorted(exp["files"]):
-        errs.append("output files %r, expected %r" % (got_paths, sorted(exp["files"])))
+        errs.append(("files", "output files %r, expected %r" % (got_paths, sorted(exp["files"]))))
         return errs
     for p in case["existing"]:
-        if p in files and files[p].get("old"):
-            errs.append("pre-existing %s not overwritten although force-file-write is set for its mocks" % p)
+        if p in exp["files"] and p in files and files[p].get("old"):
+            errs.append(("overwrite", "pre-existing %s not overwritten although force-file-write is set for its mocks" % p))
     lv = case["levels"]
     for path, ms in sorted(exp["files"].items()):
         f = files[path]
         if f.get("old"):
             continue
-        # per-mock parameters: multiset of (interface, struct, template-data, replace-type)
-        def key_exp(m):
+        # per-mock parameters, in the order of the file
+        def parts(m):
             td = restrict(m["td"], case["tdkeys"][1]) if builtin else m["td"]
-            return json.dumps([m["iface"], m["structname"], td, sorted(("%s.%s" % k, "%s.%s" % v) for k, v in m["rt"].items())], sort_keys=True)
+            return [m["iface"], m["structname"], td, sorted(("%s.%s" % k, "%s.%s" % v) for k, v in m["rt"].items())]
         got = []
         for io in f["ifaces"]:
             rt, problems = iface_rt(io["sigs"])
-            errs.extend("%s %s: %s" % (path, io["name"], x) for x in problems)
-            got.append(json.dumps([io["name"], io["struct"], io["td"], sorted(("%s.%s" % k, "%s.%s" % v) for k, v in rt.items())], sort_keys=True))
-        want = [key_exp(m) for m in ms]
+            errs.extend(("signature", "%s %s: %s" % (path, io["name"], x)) for x in problems)
+            got.append([io["name"], io["struct"], io["td"], sorted(("%s.%s" % k, "%s.%s" % v) for k, v in rt.items())])
+        want = [parts(m) for m in ms]
         for j, m in enumerate(ms):
             for td2, rt2 in m["alt"]:
-                k2 = key_exp(dict(m, td=td2, rt=rt2))
+                k2 = parts(dict(m, td=td2, rt=rt2))
                 if j < len(got) and got[j] == k2:
                     want[j] = k2
-        if sorted(got) != sorted(want):
-            errs.append("%s: mocks %s, expected %s" % (path, sorted(got), sorted(want)))
-        elif got != want:
-            errs.append("%s: mocks in unexpected order" % path)
+        if [g[0] for g in got] != [w[0] for w in want]:
+            errs.append(("per-mock:interfaces", "%s: interfaces %r, expected %r" % (path, [g[0] for g in got], [w[0] for w in want])))
+        else:
+            for g_, w_ in zip(got, want):
+                for n, what in ((1, "structname"), (2, "with-resets" if builtin else "template-data"), (3, "replace-type")):
+                    if g_[n] != w_[n]:
+                        errs.append(("per-mock:" + what, "%s: mock of %s has %s %s, its chain says %s" % (
+                            path, g_[0], what, json.dumps(g_[n], sort_keys=True), json.dumps(w_[n], sort_keys=True))))
         if f["pkgname"] != ms[0]["pkgname"]:
-            errs.append("%s: package clause %r, expected %r" % (path, f["pkgname"], ms[0]["pkgname"]))
+            errs.append(("per-mock:pkgname", "%s: package clause %r, expected %r" % (path, f["pkgname"], ms[0]["pkgname"])))
         if not builtin and f["srcpkg"] != ms[0]["pkg"]:
-            errs.append("%s: source package %r, expected %r" % (path, f["srcpkg"], ms[0]["pkg"]))
+            errs.append(("files", "%s: source package %r, expected %r" % (path, f["srcpkg"], ms[0]["pkg"])))
         # per-file parameters, where the mocks of the file agree
         want_t = ms[0]["template"]
         got_t = "matryer" if f["probe"] == "matryer" else "probe_%s" % f["probe"]
         if not (want_t == got_t or want_t.endswith("/%s.templ" % got_t)):
-            errs.append("%s: rendered by %s, the mocks sharing the file say template %s" % (path, got_t, want_t))
+            errs.append(("per-file:template", "%s: rendered by %s, the mocks sharing the file say template %s" % (path, got_t, want_t)))
         if not builtin and len({m["formatter"] for m in ms}) == 1 and f["formatter"] != ms[0]["formatter"]:
-            errs.append("%s: formatted as %s, the mocks sharing the file say formatter %s" % (path, f["formatter"], ms[0]["formatter"]))
+            errs.append(("per-file:formatter", "%s: formatted as %s, the mocks sharing the file say formatter %s" % (path, f["formatter"], ms[0]["formatter"])))
         tds = {json.dumps(m["td"], sort_keys=True) for m in ms}
         if len(tds) == 1:
             want_td = restrict(ms[0]["td"], case["tdkeys"][0]) if builtin else ms[0]["td"]
             alts = [restrict(a[0], case["tdkeys"][0]) if builtin else a[0] for a in ms[0]["alt"]]
             if f["td"] != want_td and f["td"] not in alts:
-                errs.append("%s: file-level template-data %r, the mocks sharing the file say %r" % (path, f["td"], want_td))
+                errs.append(("per-file:template-data", "%s: file-level template-data %r, the mocks sharing the file say %r" % (path, f["td"], want_td)))
         # no leak: every marker seen comes from a level of the mock's own chain
         for m, io in zip(ms, f["ifaces"]):
             allowed = set()
@@ -869,12 +874,30 @@ def oracle(case, obs):
             for x in leaves(io["td"]):
                 L = marker_level(x)
                 if L is not None and L not in allowed:
-                    errs.append("%s %s: template-data value %r was written at another level (%s), not in the chain of this mock"
-                                % (path, io["name"], x, [k for k, v in lv.items() if v == L]))
+                    errs.append(("leak", "%s %s: template-data value %r was written at another level (%s), not in the chain of this mock"
+                                 % (path, io["name"], x, [k for k, v in lv.items() if v == L])))
     return errs
 
 
 # ------------------------------------------------------------------ Gallina terms
+# Elaborating string literals dominates the cost of a cases file, and almost all strings repeat
+# (defaults, template urls, package paths): every distinct string becomes one Definition.
+INTERN = {}
+
+
+def coq_bytes(b):      # noqa: F811  (shadows common.coq_bytes on purpose)
+    if isinstance(b, str):
+        b = b.encode()
+    if b not in INTERN:
+        INTERN[b] = "s%d" % len(INTERN)
+    return INTERN[b]
+
+
+def intern_defs():
+    import common
+    return ZIMPORT + "\n" + "\n".join("Definition %s : str := %s." % (n, common.coq_bytes(b)) for b, n in INTERN.items())
+
+
 def coq_json(v):
     if v is None:
         return "JNull"
@@ -988,8 +1011,9 @@ def case_term(case, base, obs):
     ex = []
     for rel, ifaces in SRC.items():
         ex.append("(%s, %s)" % (coq_bytes(MOD + "/" + rel), coq_list(
-            "(%s, [(B \"{{.InterfaceDir}}\", %s); (B \"{{.Mock}}{{.InterfaceName}}\", %s); (B \"{{.SrcPackageName}}\", %s)])"
-            % (coq_bytes(n), coq_bytes(rel), coq_bytes("Mock" + n), coq_bytes(rel.split("/")[-1])) for n in ifaces)))
+            "(%s, [(%s, %s); (%s, %s); (%s, %s)])"
+            % (coq_bytes(n), coq_bytes("{{.InterfaceDir}}"), coq_bytes(rel), coq_bytes("{{.Mock}}{{.InterfaceName}}"), coq_bytes("Mock" + n),
+               coq_bytes("{{.SrcPackageName}}"), coq_bytes(rel.split("/")[-1])) for n in ifaces)))
     names = sorted({n for l in SRC.values() for n in l})
     rx = coq_list("(%s, %s)" % (coq_bytes(rgx), coq_strs([n for n in names if re.search(rgx, n)])) for rgx in REGEXES)
     flags = {"ptr": dict(case["flags"]), "td": None, "rt": None, "esr": None}
@@ -1053,27 +1077,28 @@ def shrink(ctx, base, case, fails):
                         cfg["rt"] = None
         return c
 
-    budget = 60
-    changed = True
-    while changed and budget > 0:
-        changed = False
-        for cand in list(candidates(cur)):
-            if budget <= 0:
-                break
-            nxt = apply(cur, cand)
-            budget -= 1
-            try:
-                o = run_case(ctx, base, nxt, "shrink")
-            except Exception:       # noqa
-                continue
-            if fails(nxt, o):
-                cur, changed = nxt, True
-                break
+    budget = 150
+    pos = 0
+    while budget > 0:
+        cands = list(candidates(cur))
+        if pos >= len(cands):
+            break
+        nxt = apply(cur, cands[pos])
+        budget -= 1
+        try:
+            o = run_case(ctx, base, nxt, "shrink")
+            ok = fails(nxt, o)
+        except Exception:       # noqa
+            ok = False
+        if ok:
+            cur = nxt           # the candidate list shifts left: same position again
+        else:
+            pos += 1
     return cur
 
 
 # ------------------------------------------------------------------ the check
-STREAMS_QUICK = [("main", 150), ("conflict", 12), ("schema", 40), ("force", 30), ("leak", 30), ("builtin", 30)]
+STREAMS_QUICK = [("main", 120), ("conflict", 8), ("schema", 30), ("force", 24), ("leak", 24), ("builtin", 24)]
 
 
 def schema_per_template_ok(exp):
@@ -1174,29 +1199,36 @@ def check(ctx, only=None):
         mult = 12 if ctx.thorough() else 1
         for stream, n in STREAMS_QUICK:
             cases += [gen_valid(ctx.rng, base, stream) for _ in range(n * mult)]
+    t1 = time.time()
     obs = pmap(lambda ic: run_case(ctx, base, ic[1], ic[0]), list(enumerate(cases)))
+    t2 = time.time()
     fails = {}
     for i, (c, o) in enumerate(zip(cases, obs)):
         e = oracle(c, o)
         if e:
             fails[i] = e
     terms = [case_term(c, base, o) for c, o in zip(cases, obs)]
-    bad, cerrs = coq_mismatches(ctx, HARNESS, terms, shard=40)
-    # ---- classification
-    def fails_oracle(cc, oo):
-        return bool(oracle(cc, oo))
-    reported = 0
-    seen_msgs = set()
+    bad, cerrs = coq_mismatches(ctx, HARNESS, terms, shard=40, extra_import=intern_defs())
+    t3 = time.time()
+    # ---- classification: one violation per failure class, shrunk within the class
+    by_class = {}
     for i in sorted(fails):
-        sig = re.sub(r"\d+", "N", fails[i][0])[:60]
-        if sig in seen_msgs or reported >= 4:
-            continue
-        seen_msgs.add(sig)
-        reported += 1
-        small = shrink(ctx, base, cases[i], fails_oracle)
+        for cls, msg in fails[i]:
+            by_class.setdefault(cls, i)
+    # a leak also shows as a per-mock difference; report the specific class first
+    order = sorted(by_class, key=lambda c: (c != "leak", c))
+    done_cases = set()
+    for cls in order[:10]:
+        i = by_class[cls]
+
+        def fails_cls(cc, oo, cls=cls):
+            return any(c == cls for c, _ in oracle(cc, oo))
+        small = shrink(ctx, base, cases[i], fails_cls)
         so = run_case(ctx, base, small, "final")
-        rp = ctx.write_replay("oracle-%d" % i, {"what": oracle(small, so) or fails[i], "case": dump_case(small, base),
-                                                 "readable": describe(small, so)})
+        what = [m for c, m in oracle(small, so) if c == cls] or [m for c, m in fails[i] if c == cls]
+        rp = ctx.write_replay("oracle-%s" % re.sub(r"[^a-z]+", "-", cls), {
+            "what": what[:4], "failure_class": cls, "cases_failing_in_this_class": sum(1 for j in fails if any(c == cls for c, _ in fails[j])),
+            "case": dump_case(small, base), "readable": describe(small, so)})
         ctx.violation(rp)
     if not gate["ok"] and not fails:
         ctx.violation(gate["replay"], nofail=True)
@@ -1204,7 +1236,7 @@ def check(ctx, only=None):
         detail = []
         for i in bad[:3]:
             def fails_model(cc, oo):
-                b2, e2 = coq_mismatches(ctx, HARNESS, [case_term(cc, base, oo)])
+                b2, e2 = coq_mismatches(ctx, HARNESS, [case_term(cc, base, oo)], extra_import=intern_defs())
                 return bool(b2 or e2)
             small = shrink(ctx, base, cases[i], fails_model)
             so = run_case(ctx, base, small, "final")
@@ -1217,10 +1249,10 @@ def check(ctx, only=None):
             "obligation": "correspondence Harness/C08.v check_case (showconfig tree after one Initialize; per file and per mock observables of a run)",
             "mismatching_cases": len(bad), "coq_errors": cerrs[:3], "examples": detail})
         ctx.violation(rp, nofail=True)
-    print("C08: cases=%d oracle_failures=%d model_mismatches=%d coq_errors=%d" % (len(cases), len(fails), len(bad), len(cerrs)), flush=True)
+    print("C08: cases=%d oracle_failures=%d model_mismatches=%d coq_errors=%d (gate+gen %.0fs, runs %.0fs, coq %.0fs)" % (len(cases), len(fails), len(bad), len(cerrs), t1 - ctx.t0, t2 - t1, t3 - t2), flush=True)
     if os.environ.get("VERIF_DEBUG"):
         for i in sorted(fails)[:10]:
-            print("  oracle", i, cases[i]["stream"], fails[i][0][:300])
+            print("  oracle", i, cases[i]["stream"], fails[i][0][0], fails[i][0][1][:300])
         print("  mismatching", bad[:40], [cases[i]["stream"] for i in bad[:40]], cerrs[:2])
     # ---- evidence
     hist = {"stream": {}, "level_subset_sizes": {}, "param_at_level": {}, "outcome": {}}
@@ -1249,7 +1281,7 @@ def check(ctx, only=None):
 
 
 def coq_show_term(ctx, term, name):
-    rc, out, err = coq_eval(ctx, name, "From Mk Require Import Lib.Bytes %s." % HARNESS, "",
+    rc, out, err = coq_eval(ctx, name, "From Mk Require Import Lib.Bytes %s.\n%s" % (HARNESS, intern_defs()), "",
                             "Definition R := Eval vm_compute in (%s).\nPrint R." % term)
     return " ".join(out.split()) if rc == 0 else "coqc failed: " + err[-1500:]
 
